@@ -7,6 +7,9 @@ import CkbVerif.Model.RulesBody
 
 ```
 cfg k=v …                 consensus parameters that differ from the generated defaults   → ok
+                          `chain=<consensus id>` selects the rfc0044 activation epoch (`ckb` / `ckb_testnet`:
+                          the generated constants, anything else 0); whether the chain-root extension rules
+                          apply to a block is then derived from the epoch number of its parent's header
 genesis id=0 ts=… work=…   the genesis block, resets the chain                            → ok
 blk <id> k=v …            defines a block (header fields, body structure, context oracles) → ok
                           `tx=<id:short:ins:outs:datas:nwit:wit0>;…` is the structure of the transactions
@@ -206,8 +209,15 @@ def statusOf (s : St) (id : Nat) : String :=
   else if (findBlk s.stored id).isSome then "stored"
   else "unknown"
 
+/-- `match self.id.as_str()` of `Consensus::rfc0044_active` -/
+def chainIdOf (s : String) : ChainId :=
+  if s == "ckb" then .mainnet else if s == "ckb_testnet" then .testnet else .other
+
 def parseCfg (c : Cfg) (ts : List String) : Cfg :=
   { c with
+    rfc0044Epoch := match kv ts "chain" with
+      | some v => rfc0044EpochOf (chainIdOf v)
+      | none => c.rfc0044Epoch
     medianCount := kvNat ts "median" c.medianCount
     maxUncles := kvNat ts "maxuncles" c.maxUncles
     maxProposals := kvNat ts "maxprops" c.maxProposals
